@@ -317,6 +317,18 @@ func (dm *DMap) putOnCluster(e *env) error {
 	}
 
 	nt := dm.prepareEntry(e)
+	if e.putConfig.OnlyUpdateTTL {
+		// Expire only updates the expiry, but the replicas store the entry they
+		// receive verbatim: ship the current value with the new expiry.
+		current, err := f.storage.Get(e.hkey)
+		if errors.Is(err, storage.ErrKeyNotFound) {
+			return ErrKeyNotFound
+		}
+		if err != nil {
+			return err
+		}
+		nt.SetValue(current.Value())
+	}
 	if dm.s.config.ReplicaCount > config.MinimumReplicaCount {
 		switch dm.s.config.ReplicationMode {
 		case config.AsyncReplicationMode:
@@ -336,6 +348,11 @@ func (dm *DMap) putOnCluster(e *env) error {
 }
 
 func (dm *DMap) writePutCommand(e *env) (*redis.StatusCmd, error) {
+	if e.putConfig.OnlyUpdateTTL {
+		// Expire: the partition owner must only update the expiry.
+		return protocol.NewPExpire(e.dmap, e.key, e.timeout).Command(dm.s.ctx), nil
+	}
+
 	cmd := protocol.NewPut(e.dmap, e.key, e.value)
 	switch {
 	case e.putConfig.HasEX:
